@@ -30,7 +30,7 @@ ASSUMPTIONS = ['the lookup and graph clauses are pure functions of their input a
                'Splitter copies are shallow: only scalar header fields are required to be independent',
                'flow ids are non-negative']
 PROBES = ['sub_demux', 'sub_hub', 'sub_split', 'sub_fattree', 'empty_table', 'unknown_flow_to_default', 'unknown_flow_nowhere',
-          'end_device_hit', 'hub_through_wires', 'hub_add_endpoint', 'fattree_k2', 'fattree_k4', 'fattree_k6', 'fattree_tcp',
+          'end_device_hit', 'hub_through_wires', 'hub_add_endpoint', 'two_hubs', 'fattree_k2', 'fattree_k4', 'fattree_k6', 'fattree_tcp',
           'fattree_many_to_one', 'server_WFQ', 'server_DRR', 'server_SP', 'server_VirtualClock', 'ack_class_delivered']
 
 
@@ -51,6 +51,7 @@ def gen(rng, tier):
         n = rng.randint(1, 5)
         return {'sub': 'hub', 'n': n, 'ports': [rng.random() < 0.5 for _ in range(n)] if rng.random() < 0.7 else None,
                 'delays': [rng.choice([0.5, 1, 2, 3]) for _ in range(n)], 'via_add': rng.random() < 0.4,
+                'second_hub': rng.random() < 0.5,
                 'sends': [[rng.choice([0, 0.5, 1, 2]), rng.randrange(n)] for _ in range(rng.randint(1, 6))]}
     if sub == 'split':
         return {'sub': 'split', 'n': rng.choice([2, 2, 3, 4]), 'use_n': rng.random() < 0.5,
@@ -181,6 +182,15 @@ def run_hub(w, case):
     except Exception as e:
         return [('C18.2/%s' % type(e).__name__, 'building a Hub with %d endpoints and ports %r raised %r' %
                  (n, pspec, e))], stats, False
+    # a second, independent hub in the same simulation: its endpoints must hear nothing of the first one's traffic
+    others = []
+    if case.get('second_hub'):
+        others = [Endpoint(w, 'other%d' % i) for i in range(2)]
+        try:
+            hub2 = Hub(env, list(others), [None, None])
+        except Exception as e:
+            return [('C18.2/%s' % type(e).__name__, 'building a second Hub raised %r' % (e,))], stats, False
+        stats['two_hubs'] = 1
     sends = []
 
     def sender(t, i, k):
@@ -213,6 +223,18 @@ def run_hub(w, case):
                 viol.append(('C18.2', 'endpoint %s received the packet sent by ep%d at t=%r at %r; %s gives %r' %
                              (e.element_id, i, t, arr[0], 'its port device (wire delay %r)' % delays[j % len(delays)]
                               if via is not None else 'a direct connection', want)))
+    for o in others:
+        if o.got:
+            viol.append(('C18.2', 'endpoint %s of another hub received %d packet(s) sent on this hub' % (o.element_id, len(o.got))))
+    if others:
+        p2 = Packet(env.now, 40, 999, src=others[0].element_id)
+        n_before = [len(e.got) for e in eps]
+        others[0].out.put(p2)
+        w.run(max_steps=20000)
+        if [len(e.got) for e in eps] != n_before:
+            viol.append(('C18.2', 'a packet sent on the second hub was repeated to endpoints of the first hub'))
+        if len(others[1].got) != 1:
+            viol.append(('C18.2', 'the second hub delivered %d copies to its other endpoint' % len(others[1].got)))
     return viol, stats, len(sends) >= 1 and n >= 3
 
 
